@@ -175,3 +175,19 @@ def prune_newest(ctx):
         sl = backward_slice(kb, [0], follow_mutarg=False)
         ctx.check(any(x is c for x in sl.calls), kb.key, 'returns-tail',
                   'keep does not return the split-off tail (the head may be what is discarded)', 'returns split_off(n)', c.where())
+
+
+@rule('C05', 'update-drops', configs=('default', 'p256'))
+def update_drops(ctx):
+    """Deleted rights leave the master key on update: the retain by membership in the universe runs on every
+    successful update, before anything is inserted."""
+    from . import c03, c06
+    c03.update_reconciles(ctx)
+    F = ctx.F
+    ub = F.fn('core::primitives::update_msk')
+    rt = ub.calls(r'RevisionMap::<K, V>::retain$')
+    oks = [b for b in sorted(ub.live_blocks()) for st in ub.stmts(b)
+           if st['rv']['k'] == 'agg' and st['rv'].get('adt') == 'std::result::Result' and st['rv']['variant'] == 'Ok' and st['lhs']['l'] == 0]
+    ctx.check(len(rt) == 1 and oks and all(ub.block_dominates(rt[0].b, b) for b in oks), ub.key, 'retain on every successful update',
+              'update_msk can succeed without dropping the secrets of rights that left the universe (the retain is conditional or '
+              'missing): keys refreshed afterwards keep deleted rights', 'retain dominates Ok(())', ub.where())
